@@ -565,6 +565,23 @@ func c10Run(ctx *Ctx, t *tape.Tape) *report.Violation {
 				}
 			}
 		}
+		if off && t.Chance(1, 3) {
+			// numbers the protocol says nothing about: the history stays
+			// violation-free, so the stream must still decode to it (NaN as
+			// NaN, an infinity as itself, -0 and a denormal within the
+			// format's quantisation)
+			hostile := []float32{float32(math.NaN()), float32(math.Inf(1)), float32(math.Inf(-1)), float32(math.Copysign(0, -1)),
+				math.Float32frombits(3), math.Float32frombits(0x80000001), 3e38, -3e38, math.MaxFloat32, 1e-30}
+			for n := 1 + t.Intn(2); n > 0; n-- {
+				o := &h[t.Intn(len(h))]
+				if k := o.K; k != world.KAbsArcTo && k != world.KRelArcTo && k.NArgs() > 0 {
+					o.F[t.Intn(k.NArgs())] = hostile[t.Intn(len(hostile))]
+					if st != nil {
+						st.Add("hostile_numbers_in_legal_histories", 1)
+					}
+				}
+			}
+		}
 		if v := checkHistoryQ(ctx, h, false, off); v != nil {
 			return trace(v, h, "long legal history, no fault injected")
 		}
@@ -853,6 +870,7 @@ func init() {
 					"seeded_histories":                     s.Counters["random_histories"],
 					"long_legal_histories":                 s.Counters["long_legal_histories"],
 					"off_lattice_histories_(decode oracle up to the format's quantisation)": s.Counters["off_lattice_histories"],
+					"legal_histories_carrying_NaN_Inf_minus_zero_denormal_or_huge_numbers":  s.Counters["hostile_numbers_in_legal_histories"],
 					"streams_decoded_within_quantisation":                                   s.Counters["decoded_within_quantisation"],
 					"exhaustive_histories":                                                  s.Counters["exhaustive_histories"],
 					"exhaustive_subspace":                                                   fmt.Sprintf("every history of length 1..%d over an abstract alphabet of 16 representative calls (2 Resets, CSel, Bytes, LOD, SetCSel, SetCReg ok, SetNReg incr ok, SetLOD, SetCReg bad adj, SetNReg bad incr, StartPath ok, StartPath bad adj, draw, close-move, end-path) is enumerated completely: %d histories", c10Depth(tier), c10Total(16, c10Depth(tier))),
